@@ -150,7 +150,7 @@ def run(ck):
         found = sorted({line.split('"')[3] for line in r.lines('<<"MODELBAD"')})
         ck._uninj = found
         # the design before the repairs: the model must show each defect (mutation evidence for the model)
-        consts2 = dict(MaxObj=2, MaxOps=5, MaxClose=2, MaxPlug=0, Kinds=kinds(["timer", "tcp", "udp", "lst", "pkt", "peer", "adp", "ws"]),
+        consts2 = dict(MaxObj=2, MaxOps=4 if ck.tier == "quick" else 5, MaxClose=2, MaxPlug=0, Kinds=kinds(["timer", "tcp", "udp", "lst", "pkt", "peer", "adp", "ws"]),
                        WithFail="TRUE", WithUninj="FALSE", WithGc="TRUE", TruncK="{1}")
         consts2.update(BEFORE_REPAIR)
         c2 = vlib.cfg_with(sw, "FdTableImpl_mc.cfg", consts2, outname="gen_before.cfg", drop=["ACTION_CONSTRAINT"],
